@@ -427,8 +427,13 @@ class Gen:
             op["operationId"] = f"{verbs[method]}_{noun.lower()}"
         elif shape == "keyword":
             # a one-word operationId that is (or lower-cases to) a Python keyword / constant
-            op["operationId"] = r.choice(["Import", "Return", "Continue", "Pass", "Class", "from", "IN", "None", "True", "async", "Match"])
-            self.features.add("opid_keyword")
+            pool = [k for k in ["Import", "Return", "Continue", "Pass", "Class", "from", "IN", "None", "True", "async", "Match"]
+                    if k.lower() not in {str(o.get("operationId")).lower() for o in self.ops}]
+            if pool:
+                op["operationId"] = r.choice(pool)      # (each keyword at most once per document: no collisions here)
+                self.features.add("opid_keyword")
+            else:
+                op["operationId"] = f"{verbs[method]}{noun}"
         elif shape == "fastapi":
             op["operationId"] = f"{verbs[method]}_{noun.lower()}_{seg}_res_{method}"
             self.features.add("opid_fastapi")
@@ -513,9 +518,12 @@ class Gen:
         responses: dict[str, Any] = {}
         rexp: dict[str, Any] = {}
         primary = r.choice(["200", "200", "201", "204", "202"])
-        if primary == "204":
-            responses["204"] = {"description": "no content"}
-            rexp["204"] = {"content": None}
+        if r.random() < self.prof.get("p_range_2xx", 0.0):
+            primary = "2XX"      # the success response declared as a range: any status 200-299
+            self.features.add("range_2xx")
+        if primary == "204" or (primary == "2XX" and r.random() < 0.3):
+            responses[primary] = {"description": "no content"}
+            rexp[primary] = {"content": None}
             self.features.add("resp_204")
         elif r.random() < self.prof.get("p_stream", 0.0):
             kind = r.choice(self.prof.get("stream_kinds", ["sse", "binary"]))
@@ -567,7 +575,7 @@ class Gen:
         # (an inline schema repeated under two statuses is two anonymous schemas, hence two classes: that belongs to the
         # trigger class 'multi_2xx_different_schema'; a nullable-reference response therefore stays the only 2xx)
         inline_nullable = bool((rexp.get(primary, {}).get("schema") or {}).get("nullable"))
-        if r.random() < self.prof["p_multi2xx"] and (not is_stream or "stream_with_secondary_2xx" in self.allow) and not inline_nullable:
+        if r.random() < self.prof["p_multi2xx"] and (not is_stream or "stream_with_secondary_2xx" in self.allow) and not inline_nullable and primary != "2XX":
             second = r.choice([c for c in ["200", "201", "202", "204"] if c != primary])
             if second == "204":
                 responses[second] = {"description": "nothing"}
@@ -668,6 +676,13 @@ class Doc:
     @staticmethod
     def from_json(d: dict) -> "Doc":
         return Doc(d["doc"], d["sexp"], d["ops"], set(d["features"]))
+
+
+def status_int(code: str, rng=None) -> int:
+    """A concrete status for a declared response key ('2XX' stands for any 200-299)."""
+    if str(code).upper() == "2XX":
+        return rng.choice([200, 201, 204, 226, 299]) if rng is not None else 200
+    return int(code)
 
 
 def componentise(rng, d: Doc, p: float = 0.5) -> Doc:
